@@ -28,6 +28,12 @@ type ringLog struct {
 var dropRe = regexp.MustCompile(`^!!! Dropped \S+ to (?:session|caller) (\d+): blocked`)
 
 func (l *ringLog) add(s string) {
+	if simrt.RaceEnabled {
+		// unsynchronised by design (the scheduler serialises); in the race
+		// build the log is off, so that it neither trips the detector nor
+		// orders the router's goroutines for it
+		return
+	}
 	if strings.HasPrefix(s, "!!! Dropped") {
 		if m := dropRe.FindStringSubmatch(s); m != nil {
 			if l.drops == nil {
@@ -43,9 +49,21 @@ func (l *ringLog) add(s string) {
 	}
 	l.n++
 }
-func (l *ringLog) Print(v ...any)            { l.add(fmt.Sprint(v...)) }
-func (l *ringLog) Println(v ...any)          { l.add(fmt.Sprint(v...)) }
-func (l *ringLog) Printf(f string, v ...any) { l.add(fmt.Sprintf(f, v...)) }
+func (l *ringLog) Print(v ...any) {
+	if !simrt.RaceEnabled {
+		l.add(fmt.Sprint(v...))
+	}
+}
+func (l *ringLog) Println(v ...any) {
+	if !simrt.RaceEnabled {
+		l.add(fmt.Sprint(v...))
+	}
+}
+func (l *ringLog) Printf(f string, v ...any) {
+	if !simrt.RaceEnabled {
+		l.add(fmt.Sprintf(f, v...))
+	}
+}
 func (l *ringLog) Tail(k int) []string {
 	var out []string
 	start := 0
@@ -166,6 +184,7 @@ func (p nonLocalPeer) IsLocal() bool { return false }
 
 // Sess is a hand-driven WAMP client attached to the simulated router.
 type Sess struct {
+	grp     *simrt.Group
 	W       *World
 	Idx     int
 	Name    string
@@ -183,25 +202,25 @@ type Sess struct {
 	AttErr  error
 	attDone bool
 
-	Inbox      []Rcv
-	RecvClosed bool
-	read       int // Inbox[:read] already consumed by Take
-	ctl        chan int
-	Dead       chan struct{} // closed when the client side sees its receive channel closed
-	closeReq   chan struct{} // closed when the harness decides to close the client end
-	sending    int           // sends in flight
-	Stalled    bool
-	nextReq    wamp.ID
-	drainDone  bool
-	CliClosed  bool
-	SendTimeouts int
-	Scribble     bool // in-process recipient that modifies what it receives
+	Inbox            []Rcv
+	RecvClosed       bool
+	read             int // Inbox[:read] already consumed by Take
+	ctl              chan int
+	Dead             chan struct{} // closed when the client side sees its receive channel closed
+	closeReq         chan struct{} // closed when the harness decides to close the client end
+	sending          int           // sends in flight
+	Stalled          bool
+	nextReq          wamp.ID
+	drainDone        bool
+	CliClosed        bool
+	SendTimeouts     int
+	Scribble         bool // in-process recipient that modifies what it receives
 	TransportDetails wamp.Dict
-	NetC, NetS   *SimConn // simulated stream connection (rawsocket sessions)
-	WSC, WSS     *FakeWS  // simulated websocket (websocket sessions)
-	selfAttached bool     // the router side is attached by the transport glue
-	awaited      map[int]bool
-	OnRecv     func(s *Sess, m wamp.Message) // optional reactive behaviour, runs in the drainer goroutine
+	NetC, NetS       *SimConn // simulated stream connection (rawsocket sessions)
+	WSC, WSS         *FakeWS  // simulated websocket (websocket sessions)
+	selfAttached     bool     // the router side is attached by the transport glue
+	awaited          map[int]bool
+	OnRecv           func(s *Sess, m wamp.Message) // optional reactive behaviour, runs in the drainer goroutine
 }
 
 const (
@@ -307,9 +326,17 @@ func (s *Sess) Join() bool {
 	return false
 }
 
+// Party returns the group of harness goroutines playing this client (see simrt.Group).
+func (s *Sess) Party() *simrt.Group {
+	if s.grp == nil {
+		s.grp = simrt.NewGroup()
+	}
+	return s.grp
+}
+
 // StartDrain starts the goroutine that reads everything the router sends.
 func (s *Sess) StartDrain() {
-	simrt.Go("drain:"+s.Name, s.drain)
+	simrt.GoIn(s.Party(), "drain:"+s.Name, s.drain)
 }
 
 func (s *Sess) drain() {
